@@ -3,6 +3,7 @@
 -/
 import GeonumModel.Lemmas.AngleStep
 import GeonumModel.Lemmas.Shift
+import GeonumModel.Lemmas.Exact
 
 set_option linter.unusedSectionVars false
 set_option linter.unusedVariables false
@@ -94,7 +95,33 @@ theorem project_angle {a b : Geonum F} (hb : flt (fabs b.mag) e10 = false) (hbi 
 
 end S
 
-/-! PARTIAL (E-tier, not yet proved): cart(project a b) = (a·b̂)b̂, rejection ⟂ b, proj + rej = a, Pythagoras,
+/-! ### E-tier: exact arithmetic -/
+section E
+open GeonumModel.Exact
+
+/-- (E) projecting an angle onto an angle gives `cos(T onto − T a + δ)`; the projection's magnitude is `|a|·|cos(T b − T a + δ)|`;
+    projection onto an angle is `|a|·cos` with the sign on the 0/π lattice -/
+theorem project_values_real {a b : Geonum ℝ} (ha : a.angle.Inv) (hb : b.angle.Inv) (hbm : flt (fabs b.mag) (e10 : ℝ) = false) :
+    ∃ δ : ℝ, |δ| < 1 / 10 ^ 10 + 1 / 10 ^ 15 ∧
+      a.angle.project b.angle = Real.cos (T b.angle - T a.angle + δ) ∧
+      (a.project b).mag = a.mag * |Real.cos (T b.angle - T a.angle + δ)| := by
+  obtain ⟨δ, hδ, hcos, _⟩ := cos_sub_gradeAngle ha hb
+  refine ⟨δ, hδ, hcos, ?_⟩
+  rw [(project_structure a b hbm).1, ← hcos]; rfl
+
+/-- (E) so `|proj| = |a||cos(T b − T a)|` to within `|a|·(1e-10 + 1e-15)` -/
+theorem project_mag_close {a b : Geonum ℝ} (ha : a.angle.Inv) (hb : b.angle.Inv) (h0a : 0 ≤ a.mag)
+    (hbm : flt (fabs b.mag) (e10 : ℝ) = false) :
+    abs ((a.project b).mag - a.mag * abs (Real.cos (T b.angle - T a.angle))) ≤ a.mag * (1 / 10 ^ 10 + 1 / 10 ^ 15) := by
+  obtain ⟨δ, hδ, _, hm⟩ := project_values_real ha hb hbm
+  rw [hm, ← mul_sub, abs_mul, abs_of_nonneg h0a]
+  apply mul_le_mul_of_nonneg_left _ h0a
+  have h1 := abs_abs_sub_abs_le_abs_sub (Real.cos (T b.angle - T a.angle + δ)) (Real.cos (T b.angle - T a.angle))
+  exact le_trans h1 (le_trans (cos_lipschitz _ _) (le_of_lt hδ))
+
+end E
+
+/-! PARTIAL (not yet proved): cart(project a b) = (a·b̂)b̂ as vectors, rejection ⟂ b, proj + rej = a, Pythagoras,
     project_to_dimension k = |a|cos(kπ/2 − t).  Explored by `oracle.C11.*`. -/
 
 example {F : Type} [FloatSpec F] : (⟨zero, 1⟩ : Angle F).Inv := inv_zero 1
